@@ -206,6 +206,16 @@ class World(OpsMixin, OracleMixin):
                 inv = world._invoke(req, args, kwargs, at_begin=True)
                 return await world._body(req, inv)
         w.__name__ = w.__qualname__ = spec.get("fname", f"w{req.idx}")
+        if spec.get("flavour") == "method" and not spec.get("marker", True):
+            # a bound coroutine method of a user object
+            plain = w
+
+            class Holder:
+                async def run(self, *args, **kwargs):
+                    return await plain(*args, **kwargs)
+
+            Holder.run.__name__ = Holder.run.__qualname__ = w.__name__
+            w = Holder().run
         req.func = w
         return w
 
@@ -385,6 +395,10 @@ class World(OpsMixin, OracleMixin):
                 if spec.get("raise") and not world.no_faults:
                     raise world.new_exc(f"{kind}cb:{tid}")
         cb.__name__ = f"{kind}cb{req.idx}"
+        if spec.get("partial"):
+            import functools
+
+            return functools.partial(cb)
         return cb
 
     def _cb_enter(self, req, kind, tid):
@@ -489,6 +503,9 @@ class World(OpsMixin, OracleMixin):
         if kind == "tuple":
             req.observable_pulls = False
             return tuple(elems)
+        if kind == "dictvalues":
+            req.observable_pulls = False
+            return {i: e for i, e in enumerate(elems)}.values()
         world = self
         iter_ops = {int(k): v for k, v in (spec.get("iter_ops") or {}).items()}
 
